@@ -1,0 +1,45 @@
+//go:build verif
+
+package unserializers
+
+import (
+	cdx "github.com/CycloneDX/cyclonedx-go"
+	"github.com/protobom/protobom/pkg/sbom"
+	"github.com/spdx/tools-golang/spdx"
+	spdx23 "github.com/spdx/tools-golang/spdx/v2/v2_3"
+)
+
+// Export shims for the external verification harness (/verif). Compiled only
+// with -tags verif; no behaviour of the package changes.
+
+func (u *SPDX23) VerifPackageToNode(p *spdx23.Package) *sbom.Node { return u.packageToNode(p) }
+
+func (u *SPDX23) VerifFileToNode(f *spdx23.File) *sbom.Node { return u.fileToNode(f) }
+
+func (u *SPDX23) VerifExtRefToProtobomEnum(r *spdx.PackageExternalReference) (sbom.ExternalReference_ExternalReferenceType, bool, error) {
+	return u.extRefToProtobomEnum(r)
+}
+
+func (u *SPDX23) VerifExtRefTypeToIdentifierType(t string) sbom.SoftwareIdentifierType {
+	return u.extRefTypeToIdentifierType(t)
+}
+
+func (u *CDX) VerifComponentToNodeList(c *cdx.Component, cc *int) (*sbom.NodeList, error) {
+	return u.componentToNodeList(c, cc)
+}
+
+func (u *CDX) VerifComponentTypeToPurpose(t cdx.ComponentType) sbom.Purpose {
+	return u.componentTypeToPurpose(t)
+}
+
+func (u *CDX) VerifCdxExtRefType(t cdx.ExternalReferenceType) sbom.ExternalReference_ExternalReferenceType {
+	return u.cdxExtRefTypeToProtobomType(t)
+}
+
+func (u *CDX) VerifCdxHashAlgo(a cdx.HashAlgorithm) sbom.HashAlgorithm {
+	return u.cdxHashAlgoToProtobomAlgo(a)
+}
+
+func (u *CDX) VerifPhaseToSBOMType(p cdx.LifecyclePhase) *sbom.DocumentType_SBOMType {
+	return u.phaseToSBOMType(&p)
+}
